@@ -79,11 +79,17 @@ def gen_case(rng, params, idx):
     npos = rng.choice([1, 1, 1, 2])
     methods = []
     if many_literals:
+        if rng.random() < 0.4:
+            npos = 3
         vals = rng.sample([0, 1, 2, 3, 4, 7, -1], rng.randint(4, 6))
+        # positions >= 1 trade off against each other (a value condition on one, a narrower class on the other),
+        # so that several Literal methods stay in one rank although some carry a second value condition
+        others = ["object", "object", "int", "MyInt", ["L", 1], ["L", "a"], ["D", "int", "even"], "str"]
         for i, v in enumerate(vals):
             v2 = rng.choice([0, 1, 2, 3, 4, 7])
             lit = ["L", v] if rng.random() < 0.7 or v2 == v else ["L", v, v2]
-            pos = [{"n": "a0", "t": lit}] + [{"n": f"a{j}", "t": rng.choice(["object", "int"])} for j in range(1, npos)]
+            pos = [{"n": "a0", "t": lit}] + [{"n": f"a{j}", "t": rng.choice(others if npos == 3 else ["object", "int"])}
+                                              for j in range(1, npos)]
             methods.append({"mid": i, "pos": pos, "kw": [], "prio": 0, "kind": "leaf"})
     static_only = many_literals and rng.random() < 0.6
     for i in range(len(methods), len(methods) + rng.randint(2, 6)):
